@@ -1,6 +1,6 @@
 (* C04 model driver: evaluates the extracted ABFModel at floats on case lines from stdin.
    Case:  ABF nd lower*nd width*nd nx*nd periodic*nd full min update cap maxf*nd szd same sub*nd hidej other*nd scaled sfac*(prod nx)
-              late ndata (cnt0*(prod nx) grad0*(prod nx * nd))*ndata nevents event*nevents
+              tsf late ndata (cnt0*(prod nx) grad0*(prod nx * nd))*ndata nevents event*nevents
           late = number of steps the engine made before the bias was defined (0: defined at the start)
           event = 0 x*nd e*nd o*nd j*nd boundary apply      (a step)
                 | 1 cnt*(prod nx) grad*(prod nx * nd)       (restart: state file loaded into a new instance)
@@ -58,6 +58,7 @@ let () =
                      c_update = update; c_cap = cap; c_maxf = maxf; c_szd = szd; c_same_step = same;
                      c_subtract = sub; c_hidej = hidej; c_other = other; c_scaled = scaled; c_sfac = sfac } in
            (* data read through inputPrefix *)
+           let tsf = ni () in
            let late = ni () in
            let ndata = ni () in
            let addr_of (ix : z list) : int =
@@ -106,7 +107,7 @@ let () =
                s := abf_event_apply fops c !s ev; s0 := !s; outs := []; seg := []
              | EvStep i ->
                seg := i :: !seg;
-               let (s1, o) = abf_step fops c !s i in
+               let (s1, o) = if tsf > 1 then abf_mstep fops c (z_of_int tsf) !s i else abf_step fops c !s i in
                (* The grids of the model are functions idx -> value, each step wrapping the previous one in a
                   closure: evaluate them once on the bins of the grid and continue with table look-ups
                   (same function on every index: outside the table the original closure answers). *)
